@@ -138,6 +138,38 @@ pub fn record(args: &[String]) {
     }
     // the trace specification compares consecutive sizes of one family: group the events by family
     evs.sort_by_key(|e| (FAMILIES.iter().position(|f| *f == e["family"].as_str().unwrap()).unwrap(), e["n"].as_u64().unwrap()));
+    // CPU time on a busy machine is noisy (cache and page-fault contention): a suspicious step between two sizes is measured
+    // again, one pair at a time, and the smallest time seen is kept -- a real blow-up survives this, noise does not
+    for _ in 0..3 {
+        let mut again: Vec<usize> = vec![];
+        for i in 1..evs.len() {
+            let (p, e) = (&evs[i - 1], &evs[i]);
+            let t = |x: &serde_json::Value, k: &str| x[k].as_u64().unwrap_or(0);
+            if p["family"] == e["family"] && !e["timed_out"].as_bool().unwrap_or(false) && e.get("crashed").is_none() && p.get("crashed").is_none()
+                && ((t(p, "cpu_us") >= 20_000 && t(e, "cpu_us") > 8 * t(p, "cpu_us")) || (t(p, "lex_us") >= 20_000 && t(e, "lex_us") > 8 * t(p, "lex_us")))
+            {
+                again.push(i - 1);
+                again.push(i);
+            }
+        }
+        again.dedup();
+        if again.is_empty() {
+            break;
+        }
+        for i in again {
+            let item = json!({"family": evs[i]["family"], "n": evs[i]["n"]}).to_string();
+            if let Some(crate::sup::Answer::Line(l)) = crate::sup::run_cpu_limited("work", &[], &[item], Duration::from_secs(limit)).into_iter().next() {
+                let v: serde_json::Value = serde_json::from_str(&l).unwrap();
+                for k in ["cpu_us", "lex_us"] {
+                    let m = evs[i][k].as_u64().unwrap_or(0).min(v[k].as_u64().unwrap_or(u64::MAX));
+                    evs[i][k] = json!(m);
+                }
+                let r = evs[i]["remeasured"].as_u64().unwrap_or(0) + 1;
+                evs[i]["remeasured"] = json!(r);
+            }
+        }
+    }
+    evs.sort_by_key(|e| (FAMILIES.iter().position(|f| *f == e["family"].as_str().unwrap()).unwrap(), e["n"].as_u64().unwrap()));
     let text: String = evs.iter().map(|e| format!("{e}\n")).collect();
     std::fs::write(&args[1], text).unwrap();
 }
